@@ -10,6 +10,8 @@ RULES = {"C12.a", "C12.b", "C12.c", "C12.d", "C12.e", "C12.f"}
 
 
 def check(ctx):
+    from .common import compiled_scanner_is_frozen
+    compiled_scanner_is_frozen(ctx, "C02.m")   # nothing edits a compiled scanner after the pipeline produced it (closed writer sets)
     if ctx.tier == "thorough":
         from . import witness
         witness.analyze(ctx, "C12.e")
